@@ -153,11 +153,47 @@ def oracleParamsDescribe (c : CaseIn) (chunks : List Bytes) : Option String :=
     if t = ch 't' then (rd16 b).map (·.1) else none
   if got = want then none else some ("C20:describe-count:" ++ toString got ++ "/" ++ toString want)
 
+def asciiStr (b : Bytes) : String := String.ofList (b.map fun x => Char.ofNat x.toNat)
+
+/-- compact notation of one backend frame, used by generator-attached expectations (`xp=`) -/
+def frameNote (f : UInt8 × Bytes) : String :=
+  let (t, b) := f
+  let tc := String.singleton (Char.ofNat t.toNat)
+  if t = ch 'C' then "C" ++ (match cstr b with | some (tag, _) => hexOf tag | none => "?")
+  else if t = ch 'E' then
+    match parseErrFields (b.length + 1) b with
+    | some fs =>
+      let fld := fun (c : Char) => asciiStr ((fs.lookup (UInt8.ofNat c.toNat)).getD [])
+      "E" ++ fld 'C' ++ ":" ++ fld 'S'
+    | none => "E?"
+  else if t = ch 'R' then "R" ++ (match rd32 b with | some (n, _) => toString n | none => "?")
+  else if t = ch 'T' ∨ t = ch 'D' ∨ t = ch 't' then tc ++ (match rd16 b with | some (n, _) => toString n | none => "?")
+  else tc
+
+/-- generator-attached expectations: `xp` = notation of every frame after the session's first
+    ReadyForQuery, `xpre` = notation of the whole output (used when no session starts),
+    `xend` = fate of the connection -/
+def oracleExpect (c : CaseIn) (chunks : List Bytes) (rkv : KV) : Option String :=
+  let frames := implFrames chunks
+  let notes := frames.map frameNote
+  let afterZ := (notes.dropWhile (· ≠ "Z")).drop 1
+  let chk (key : String) (got : List String) : Option String :=
+    match c.kv.lookup key with
+    | none => none
+    | some want =>
+      let g := ",".intercalate got
+      if g = want then none else some (c.camp ++ ":" ++ key ++ ":got=" ++ g ++ ":want=" ++ want)
+  (chk "xp" afterZ).orElse fun _ =>
+  (chk "xpre" notes).orElse fun _ =>
+  match c.kv.lookup "xend" with
+  | none => none
+  | some want => if get rkv "end" = want then none else some (c.camp ++ ":xend:got=" ++ get rkv "end" ++ ":want=" ++ want)
+
 def oracle (c : CaseIn) (chunks : List Bytes) (rkv : KV) : Option String :=
   if c.camp = "errors" then oracleErrors c chunks
   else if c.camp = "params" then oracleParams c rkv
   else if c.camp = "paramsd" then oracleParamsDescribe c chunks
-  else none
+  else oracleExpect c chunks rkv
 
 def processLine (line : String) : String :=
   match line.splitOn " || " with
